@@ -27,7 +27,7 @@ MANIFEST = {
     'technique': 'runtime monitoring: history + executable reference model in lock-step, icontract invariants at the hooks, exhaustive bounded histories',
 }
 LEVEL = 'model_checking'
-BUDGET = {'quick': 50, 'thorough': 420}
+BUDGET = {'quick': 120, 'thorough': 420}
 RULE = ('operation histories over the clash universe; exhaustive to the stated depth, then BFS over distinct model states, then '
         'seeded random histories; a case = one history; distinct by the history itself; non-trivial = at least one accepted '
         'mutation; states = distinct model states visited, transitions = calls executed and compared')
